@@ -97,6 +97,49 @@ fn borrow_dump(tcx: &TypeContext) -> Value {
             out.insert(key, Value::Object(per));
         }
     }
+    out.insert("$field_maps".into(), field_maps(tcx));
+    Value::Object(out)
+}
+
+/// StructBorrowInfo::compute_for_struct_field for every struct-typed field of every struct definition:
+/// {outer struct: {field: {inner-definition lifetime: [outer-definition lifetimes]} | null | {"panic": ..}}}
+fn field_maps(tcx: &TypeContext) -> Value {
+    use diplomat_core::hir::borrowing_param::StructBorrowInfo;
+    use diplomat_core::hir::{Type, TypeDef};
+    let mut out = serde_json::Map::new();
+    for (_id, ty) in tcx.all_types() {
+        let mut per = serde_json::Map::new();
+        if let TypeDef::Struct(sd) = ty {
+            for f in &sd.fields {
+                if let Type::Struct(path) = &f.ty {
+                    let r = catch_unwind(AssertUnwindSafe(|| {
+                        StructBorrowInfo::compute_for_struct_field(sd, path, tcx).map(|info| {
+                            let mut o = serde_json::Map::new();
+                            for (def_lt, set) in &info.borrowed_struct_lifetime_map {
+                                let names: Vec<String> = set.iter().map(|l| sd.lifetimes.fmt_lifetime(*l).to_string()).collect();
+                                o.insert(info.env.fmt_lifetime(*def_lt).to_string(), json!(names));
+                            }
+                            Value::Object(o)
+                        })
+                    }));
+                    per.insert(
+                        f.name.as_str().into(),
+                        match r {
+                            Ok(Some(v)) => v,
+                            Ok(None) => Value::Null,
+                            Err(_) => {
+                                let p = LAST_PANIC.with(|p| p.borrow_mut().take());
+                                json!({"panic": p.map(|(m, l)| json!({"msg": m, "loc": l}))})
+                            }
+                        },
+                    );
+                }
+            }
+        }
+        if !per.is_empty() {
+            out.insert(ty.name().to_string(), Value::Object(per));
+        }
+    }
     Value::Object(out)
 }
 
